@@ -117,11 +117,46 @@ class Scope:
         self.derived = False   # derived / narrowing scopes are dropped when nothing is read in them
 
 
+LOWERING_FILES = {"expr_compiler": "compiler/expr_compiler.py", "stmt_compiler": "compiler/stmt_compiler.py"}
+LOWERING_VISITORS = ["ExprCompiler", "StmtCompiler"]
+LOWERING_EXPECTED = ["_build_generators", "visit_DesugaredListComp", "visit_DesugaredArrayComp"]
+
+
+def guppy_kinds(nodes_tree, py_kinds):
+    """Guppy's own node classes that declare `_fields`: name -> ("guppy", [(field, type, quant)]).
+    Field types come from the class-level annotations (`generators: list[DesugaredGenerator]`)."""
+    out = {}
+    for n in nodes_tree.body:
+        if not isinstance(n, ast.ClassDef):
+            continue
+        fields, anns = None, {}
+        for st in n.body:
+            if isinstance(st, ast.Assign) and len(st.targets) == 1 and isinstance(st.targets[0], ast.Name) \
+                    and st.targets[0].id == "_fields" and isinstance(st.value, ast.Tuple):
+                fields = [e.value for e in st.value.elts if isinstance(e, ast.Constant)]
+            elif isinstance(st, ast.AnnAssign) and isinstance(st.target, ast.Name):
+                anns[st.target.id] = st.annotation
+        if fields is None:
+            continue
+        fs = []
+        for f in fields:
+            a = anns.get(f)
+            ty, q = "any", "1"
+            if isinstance(a, ast.Subscript) and isinstance(a.value, ast.Name) and a.value.id == "list" and isinstance(a.slice, ast.Name):
+                ty, q = a.slice.id, "*"
+            elif isinstance(a, ast.Name):
+                ty = a.id
+            fs.append((f, ty, q))
+        out[n.name] = ("guppy", fs)
+    return out
+
+
 class Analyzer:
-    def __init__(self, repo_int: Path):
+    def __init__(self, repo_int: Path, lowering: bool = False):
+        self.lowering = lowering
         self.kinds, self.members = grammar()
         self.trees = {}
-        for key, rel in FILES.items():
+        for key, rel in (LOWERING_FILES if lowering else FILES).items():
             p = repo_int / rel
             if not p.exists():
                 raise TranslatorError(f"source file missing: {rel}")
@@ -138,9 +173,15 @@ class Analyzer:
                     if isinstance(b, ast.Attribute) and isinstance(b.value, ast.Name) and b.value.id == "ast" and b.attr in self.kinds:
                         base = b.attr
                 self.guppy_nodes[n.name] = base
+        if lowering:
+            gk = guppy_kinds(ast.parse(nodes_py.read_text()), self.kinds)
+            for k, v in gk.items():
+                self.kinds[k] = v
+                self.members[k] = [k]
         # only these are the *same statement* carried on under a new class
-        self.alias = {"NestedFunctionDef": "FunctionDef", "CheckedNestedFunctionDef": "FunctionDef",
-                      "ModifiedBlock": "With", "CheckedModifiedBlock": "With"}
+        self.alias = {} if lowering else {
+            "NestedFunctionDef": "FunctionDef", "CheckedNestedFunctionDef": "FunctionDef",
+            "ModifiedBlock": "With", "CheckedModifiedBlock": "With"}
         for a, k in self.alias.items():
             if a in self.guppy_nodes and self.guppy_nodes[a] != k:
                 raise TranslatorError(f"nodes.py: {a} no longer derives from ast.{k}")
@@ -150,10 +191,11 @@ class Analyzer:
         self.classes = {}    # class name -> {method name: qualified}
         for key, tree in self.trees.items():
             self._collect(tree.body, key, None)
-        for f in EXPECTED_FUNCS:
+        for f in (LOWERING_EXPECTED if lowering else EXPECTED_FUNCS):
             if f not in self.by_name:
                 raise TranslatorError(f"expected function `{f}` not found in the scanned sources")
-        for v in VISITORS:
+        self.visitors = LOWERING_VISITORS if lowering else VISITORS
+        for v in self.visitors:
             if v not in self.classes:
                 raise TranslatorError(f"visitor class `{v}` not found")
         self.scopes = {}
@@ -208,6 +250,8 @@ class Analyzer:
             return [], False
         if isinstance(ann, ast.Name) and ann.id in self.alias:
             return [self.alias[ann.id]], False
+        if isinstance(ann, ast.Name) and self.lowering and self.kinds.get(ann.id, ("",))[0] == "guppy":
+            return [ann.id], False
         return [], False
 
     def class_kinds(self, e):
@@ -223,7 +267,7 @@ class Analyzer:
         for name, ty, q in self.kinds[sc.kind][1]:
             if name == f:
                 mem = self.members.get(ty)
-                if mem is not None and len(mem) == 1 and self.kinds[mem[0]][0] in ("product", "excepthandler"):
+                if mem is not None and len(mem) == 1 and self.kinds[mem[0]][0] in ("product", "excepthandler", "guppy"):
                     child = self.scope(f"{sc.name}/{f}", mem[0])
                     child.parent, child.derived = sc, True
                     return ("list", child) if q == "*" else ("node", child)
@@ -575,7 +619,7 @@ class Analyzer:
 
     # --- entry points
     def run(self):
-        for v in VISITORS:
+        for v in self.visitors:
             for m, q in sorted(self.classes[v].items()):
                 fn = self.funcs[q][0]
                 if not m.startswith("visit_"):
@@ -595,7 +639,7 @@ class Analyzer:
                 self.run_function(q, {params[1]: ("node", sc)}, "visit")
         # functions with annotated node parameters, analysed on their own
         for q, (fn, cls, key) in sorted(self.funcs.items()):
-            if q.split(".")[-1].startswith("visit_") and cls in VISITORS:
+            if q.split(".")[-1].startswith("visit_") and cls in self.visitors:
                 continue
             b = {}
             for a in fn.args.args:
@@ -604,6 +648,7 @@ class Analyzer:
                     continue  # already analysed as part of its callers' scopes
                 if len(ks) == 1:
                     sc = self.scope(f"{q}({a.arg})", ks[0])
+                    sc.derived = True
                     b[a.arg] = ("list", sc) if is_list else ("node", sc)
                 elif len(ks) > 1 and not is_list:
                     # union annotation: one analysis per kind
@@ -672,6 +717,15 @@ def cl(xs):
     return "[" + "; ".join(xs) + "]"
 
 
+def lowering_table(repo_int: Path):
+    global _L, _LS
+    a = Analyzer(repo_int, lowering=True).run()
+    scopes = [a.scopes[n] for n in a.order]
+    _L, _LS = a, scopes
+    used = sorted({s.kind for s in scopes})
+    return a, scopes, used
+
+
 def table(repo_int: Path):
     a = Analyzer(repo_int).run()
     f = a.facts()
@@ -708,7 +762,26 @@ def translate(repo_int: Path) -> str:
     L.append(f"Definition stmt_handlers : list string := {cl([cs(k) for k in f['stmt_handlers']])}.")
     L.append(f"Definition expr_handlers : list string := {cl([cs(k) for k in f['expr_handlers']])}.")
     L.append("")
-    L.append("Definition tbl : table := mkTable grammar members scopes stmt_generic_rejects expr_generic_rejects stmt_handlers expr_handlers.")
+    L.append("Definition tbl : table := mkTable grammar members scopes stmt_generic_rejects expr_generic_rejects stmt_handlers expr_handlers false.")
+    # ---- lowering stage
+    la, lscopes, used = lowering_table(repo_int)
+    L.append("")
+    L.append("Definition lgrammar : list kind_decl := [")
+    rows = []
+    for k in used:
+        cls, fs = la.kinds[k]
+        frows = cl([f"mkField {cs(n)} {cs(t)} {'true' if q == '*' else 'false'}" for n, t, q in fs])
+        rows.append(f"  mkKind {cs(k)} {cs(cls)} {frows}")
+    L.append(";\n".join(rows) + "].")
+    L.append("")
+    L.append("Definition lscopes : list scope := [")
+    rows = []
+    for s in lscopes:
+        rows.append(f"  mkScope {cs(s.name)} {cs(s.kind)} {'true' if s.escapes else 'false'} {'true' if s.raises else 'false'} "
+                    f"{cl([cs(x) for x in sorted(s.reads)])} {cl([cs(x) for x in sorted(s.guards)])}")
+    L.append(";\n".join(rows) + "].")
+    L.append("")
+    L.append("Definition ltbl : table := mkTable lgrammar [] lscopes false false [] [] true.")
     return "\n".join(L) + "\n"
 
 
@@ -720,7 +793,11 @@ def report(repo_int: Path) -> dict:
             "members": a.members,
             "scopes": [{"name": s.name, "kind": s.kind, "pass": s.escapes, "raises": s.raises,
                         "reads": sorted(s.reads), "guards": sorted(s.guards)} for s in scopes],
-            "facts": f}
+            "facts": f,
+            "lowering_scopes": [{"name": s.name, "kind": s.kind, "pass": s.escapes, "raises": s.raises,
+                                 "reads": sorted(s.reads), "guards": sorted(s.guards),
+                                 "fields": [n for n, _, _ in lowering_table.__globals__["_L"].kinds[s.kind][1]]}
+                                for s in lowering_table.__globals__["_LS"]]}
 
 
 if __name__ == "__main__":
